@@ -179,7 +179,48 @@ pub fn build(repo: &Path, root: &Path, with_big: bool) -> Tree {
     }
     // tiny synthetic fixtures (a recursive input pair, an enum + interface): small enough for the
     // instruction-level scheduler (Miri batch), and part of the ordinary workload too
-    let syn: [(&str, &str, &str); 3] = [
+    // a wide and deep schema: more than 64 / 256 of everything (types, enum values, fields of one
+    // type, input fields, fragments, operations in one document, nesting levels), for code paths
+    // that only larger inputs take
+    let wide_schema: &'static str = {
+        let mut s = String::from("schema { query: Q }\n");
+        s += &format!("enum Big {{ {} }}\n", (0..300).map(|i| format!("V{}", i)).collect::<Vec<_>>().join(" "));
+        for i in 0..80 {
+            s += &format!("type W{} {{ id: ID, n: Int, big: Big, next: W{}, peers: [W{}!] }}\n", i, (i + 1) % 80, (i + 7) % 80);
+        }
+        s += &format!("type Fat {{ {} }}\n", (0..270).map(|i| format!("f{}: {}", i, ["Int", "String", "Big", "W3"][i % 4])).collect::<Vec<_>>().join(", "));
+        s += &format!("input In {{ {} }}\n", (0..70).map(|i| format!("i{}: {}", i, ["Int", "String", "Big"][i % 3])).collect::<Vec<_>>().join(", "));
+        // more than 256 input types, two of which hold each other without a list in between
+        for i in 0..300 {
+            s += &format!("input J{} {{ a: Int, b: String }}\n", i);
+        }
+        s += "input RA { b: RB, v: Int, j: J7 }\ninput RB { a: RA, big: Big, j: J299 }\n";
+        s += "type Q { w: W0, fat: Fat, take(x: In, b: Big): Int, take2(a: RA, j: J5): Int, aVeryLongFieldNameThatGoesOnAndOnAndOnAndOnAndOnAndOnAndOnAndOnAndOnAndOnAndOnAndOnAndOnAndOnAndOnAndOn: Int }\n";
+        Box::leak(s.into_boxed_str())
+    };
+    let wide_query: &'static str = {
+        let mut q = String::new();
+        for i in 0..70 {
+            // the first 35 sit on consecutive nesting levels, the rest on the first level
+            q += &format!("fragment P{} on W{} {{ id n big }}\n", i, if i < 35 { i } else { 0 });
+        }
+        q += &format!("query Deep20 {{ w {}{{ id{} }}\n", "{ next ".repeat(20), " }".repeat(21));
+        q += &format!("query FatAll {{ fat {{ {} }} }}\n", (0..270).map(|i| if i % 4 == 3 { format!("f{} {{ id }}", i) } else { format!("f{}", i) }).collect::<Vec<_>>().join(" "));
+        q += "query Many($x: In, $b: Big = V299) { take(x: $x, b: $b) w { big } aVeryLongFieldNameThatGoesOnAndOnAndOnAndOnAndOnAndOnAndOnAndOnAndOnAndOnAndOnAndOnAndOnAndOnAndOnAndOn }\n";
+        q += "query Rec2($a: RA, $j: J5) { take2(a: $a, j: $j) }\n";
+        // 70 fragments: 35 nesting levels (the parser's own recursion limit is 50), 35 side by side
+        let mut frag = String::from("id");
+        for i in (0..35).rev() {
+            frag = format!("...P{} next {{ {} }}", i, frag);
+        }
+        q += &format!("query Frags {{ w {{ {} {} }} }}\n", (35..70).map(|i| format!("...P{}", i)).collect::<Vec<_>>().join(" "), frag);
+        for i in 0..12 {
+            q += &format!("query Op{} {{ w {{ n peers {{ id }} }} }}\n", i);
+        }
+        Box::leak(q.into_boxed_str())
+    };
+    let syn: [(&str, &str, &str); 4] = [
+        ("syn_wide", wide_schema, wide_query),
         (
             // one document, many operations: fragments in a diamond (G reached directly and through
             // F), operation names that collide once snake-cased, selections that flatten to the
@@ -234,10 +275,22 @@ pub fn build(repo: &Path, root: &Path, with_big: bool) -> Tree {
                 fixtures.push(Fixture { dir: name.to_string(), file: file.into(), is_schema: false, ops: operation_names(text), big: false, deepbad: false });
             }
         }
+        if name == "syn_iface" {
+            // documents that bind fine but are rejected by the validation pass that follows
+            // (an interface selected without __typename, directly or through a fragment); the
+            // rejection concerns the whole document, whichever operation is asked for
+            for (file, text) in [
+                ("query_notypename.graphql", "query NoTn { n { name } }\nquery Fine { c }\n"),
+                ("query_fragnotypename.graphql", "query UsesBare { c n { __typename ...Bare } }\nfragment Bare on Named { name }\nquery Fine2 { c }\n"),
+            ] {
+                fs::write(d.join(file), text).unwrap();
+                fixtures.push(Fixture { dir: name.to_string(), file: file.into(), is_schema: false, ops: operation_names(text), big: false, deepbad: false });
+            }
+        }
         if name == "syn_multi" {
             continue;
         }
-        let sibling = if name == "syn_rec" { query.replace("query Op(", "query Oq(") } else { query.replace("query E(", "query F(") };
+        let sibling = if name == "syn_rec" { query.replace("query Op(", "query Oq(") } else if name == "syn_wide" { query.replace("query Many(", "query Nany(") } else { query.replace("query E(", "query F(") };
         assert_eq!(sibling.len(), query.len());
         fs::write(d.join("query_b.graphql"), &sibling).unwrap();
         fixtures.push(Fixture { dir: name.to_string(), file: "query_b.graphql".into(), is_schema: false, ops: operation_names(&sibling), big: false, deepbad: false });
